@@ -38,7 +38,8 @@ pub enum Op {
     Clone { src: u8, dst: u8 },
     CloneFrom { src: u8, dst: u8 },
     /// enc: 0 = tokens human-readable, 1 = tokens compact, 2 = serde_json text.
-    RoundTrip { src: u8, dst: u8, enc: u8 },
+    /// in_place: through `Deserialize::deserialize_in_place` into the world that is in `dst`.
+    RoundTrip { src: u8, dst: u8, enc: u8, #[serde(default)] in_place: bool },
     Snapshot { slot: u8, enc: u8 },
     /// Drop the world and restart from the last snapshot (or an empty world).
     Crash { slot: u8 },
@@ -50,7 +51,7 @@ pub enum Op {
     DebugFmt { slot: u8 },
     Lockstep { a: u8, b: u8, on: bool },
     /// Deserialize a corrupted serialization of `src` into `dst`.
-    Corrupt { src: u8, dst: u8, enc: u8, faults: Vec<StreamFault> },
+    Corrupt { src: u8, dst: u8, enc: u8, faults: Vec<StreamFault>, #[serde(default)] in_place: bool },
     /// Run `inner` with a callback fault armed: the k-th callback of `kind` fails.
     FaultAt { kind: String, k: u32, as_error: bool, inner: Box<Op> },
 }
